@@ -1,0 +1,21 @@
+//! Verification hooks for the deterministic-simulation harness in `/verif`.
+//!
+//! Compiled only with the cargo feature `verif-hooks` (off by default). Nothing in here is
+//! reachable from a build without that feature; with the feature on, every hook is inert unless
+//! the harness explicitly installs something on the current thread.
+
+use std::{cell::RefCell, collections::BTreeMap};
+
+thread_local! {
+    static PROBES: RefCell<BTreeMap<&'static str, u64>> = const { RefCell::new(BTreeMap::new()) };
+}
+
+/// Reach probe: counts how often a branch of interest was executed on this thread.
+pub fn hit(name: &'static str) {
+    PROBES.with(|p| *p.borrow_mut().entry(name).or_insert(0) += 1);
+}
+
+/// Takes (and clears) the probe counters of this thread.
+pub fn take_probes() -> BTreeMap<&'static str, u64> {
+    PROBES.with(|p| std::mem::take(&mut *p.borrow_mut()))
+}
